@@ -125,6 +125,83 @@ def _known_variant(stmts, local, depth=0, names=False):
     return None
 
 
+def _moved_from(stmts, local, depth=0):
+    """the local whose value `local` holds at the end of the statement list, following whole-local moves made in it"""
+    for i in range(len(stmts) - 1, -1, -1):
+        st = stmts[i]
+        if st["k"] == "assign" and st["dst"]["l"] == local:
+            rv = st["rv"]
+            if not st["dst"].get("p") and rv["k"] == "use" and rv["a"].get("k") in ("move", "copy") and not rv["a"]["p"].get("p") and depth < 4:
+                return _moved_from(stmts[:i], rv["a"]["p"]["l"], depth + 1)
+            return local
+    return local
+
+
+def _all_preds(F):
+    preds = {}
+    for b in F["blocks"]:
+        t = b["term"]
+        succ = []
+        if isinstance(t.get("t"), int):
+            succ.append(t["t"])
+        if isinstance(t.get("unwind"), int):
+            succ.append(t["unwind"])
+        if t["k"] == "switch":
+            succ += [tg for _, tg in t["targets"]] + [t["otherwise"]]
+        if t["k"] == "asm":
+            succ += [x for x in t.get("targets", []) if isinstance(x, int)]
+        for x in succ:
+            preds.setdefault(x, []).append(b["id"])
+    return preds
+
+
+def _tested_variant(F, allpreds, P, local, names=False):
+    """variant of the std enum in `local` at the end of block P when P can only be reached over ONE edge of a `match` on that very
+    local (a switch on its discriminant) and nothing assigns or mutably borrows it in between; None when unknown.  This is what the
+    arm `other => return other` of `match r.read(..) { Err(e) if .. => .., other => return other }` knows on its Err-side entry."""
+    ty = (F["locals"][local]["ty"] if local < len(F.get("locals", [])) else "") or ""
+    adt = "core::result::Result" if ty.startswith("core::result::Result<") else "core::option::Option" if ty.startswith("core::option::Option<") else None
+    if adt is None:
+        return None
+    cur = P
+    for _ in range(8):
+        for st in cur["stmts"]:
+            if st["k"] == "assign" and st["dst"]["l"] == local:
+                return None
+            rv = st.get("rv", {})
+            if rv.get("k") in ("ref", "rawptr") and rv.get("m") not in (False, None, "Const") and rv.get("p", {}).get("l") == local:
+                return None
+        ps = allpreds.get(cur["id"], [])
+        if len(ps) != 1:
+            return None
+        S = F["blocks"][ps[0]]
+        t = S["term"]
+        if t["k"] == "goto" or (t["k"] in ("call", "assert", "drop") and t.get("t") == cur["id"] and not (t["k"] == "call" and t["dst"]["l"] == local) and
+                                not (t["k"] == "drop" and t["p"].get("l") == local)):
+            cur = S
+            continue
+        if t["k"] != "switch" or t["discr"].get("k") not in ("move", "copy") or t["discr"]["p"].get("p"):
+            return None
+        d = t["discr"]["p"]["l"]
+        reads = [st for st in S["stmts"] if st["k"] == "assign" and st["dst"]["l"] == d and not st["dst"].get("p")]
+        if len(reads) != 1 or reads[0]["rv"].get("k") != "discr" or reads[0]["rv"]["p"].get("l") != local or reads[0]["rv"]["p"].get("p"):
+            # a test of something else (a match guard): pass through
+            cur = S
+            continue
+        vals = [v for v, tg in t["targets"] if tg == cur["id"]]
+        if len(vals) == 1 and t["otherwise"] != cur["id"]:
+            v = vals[0]
+        elif not vals and t["otherwise"] == cur["id"] and len(t["targets"]) == 1 and t["targets"][0][0] in (0, 1):
+            v = 1 - t["targets"][0][0]
+        else:
+            return None
+        inv = {n: k for k, n in STD_DISCR[adt].items()}
+        if v not in inv:
+            return None
+        return inv[v] if names else v
+    return None
+
+
 def _pure_moves(B):
     """{dst: src} when the block only moves whole locals around (and ends in goto), else None"""
     if B.get("cleanup") or B["term"]["k"] != "goto":
@@ -205,6 +282,8 @@ def thread_variants(F):
                 if P["term"]["k"] != "goto":
                     continue
                 vn = _known_variant(P["stmts"], xl, names=True)
+                if vn is None:
+                    vn = _tested_variant(F, _all_preds(F), P, _moved_from(P["stmts"], xl), names=True)
                 if vn not in ("Ok", "Some", "Err", "None"):
                     continue
                 dv = 0 if vn in ("Ok", "Some") else 1
@@ -257,6 +336,8 @@ def thread_variants(F):
                 if P["term"]["k"] != "goto":
                     continue
                 v = _known_variant(P["stmts"], loc)
+                if v is None:
+                    v = _tested_variant(F, _all_preds(F), P, _moved_from(P["stmts"], loc))
                 if v is None:
                     continue
                 hit = [tg for val, tg in t["targets"] if val == v]
